@@ -113,6 +113,31 @@ CLAIMS = {
         "timestamps absent or of symbolic length: building the configuration rejects exactly the mismatching or unforced series, otherwise the step count is the "
         "common length (or one); step i takes the i-th entries / scalars / i-th timestamp or i; the drivers call the single run for 0..n-1 in order.",
         ref="7/C16", note=CH_NOTE),
+    "C08": dict(
+        technique="exact/UF symbolic execution of compute_wind_fields (z3 NRA with instantiated trig laws) + CrossHair on the interface plumbing + path-explored configuration building",
+        text="(a) for every speed >= 0 and every real direction z3 decides speed preservation, the four cardinal mappings (0/90/180/270 -> toward S/W/N/E), the "
+        "sign pattern inside every quadrant and 360-periodicity of the real wind decomposition; (b) CrossHair confirms over all paths that the interface hands "
+        "(speed, direction) to the decomposition, (u, v) in order to the profiles and the tower's local x, y as measurement point; the tower's lat/lon reach x, y "
+        "for every reference origin. The centroid-bearing clause ('within a few degrees') is OUTSIDE the claim (numerical solution; z3 unknown on the exact sign certificate).",
+        ref="7/C08", note="Trusted: z3, CrossHair; sin/cos as uninterpreted functions with the listed laws; stubs as in C13."),
+    "C09": dict(
+        technique="exact/UF symbolic execution of vertical_profiles/psi/phi and the reference copies with a solver-guided path explorer; dual numbers for psi'",
+        text="For all real forcings (0<z0<zm, |wind|>0, ustar>0, mol of either sign, prsc, tke) and every closure, on each explored grid length z3 decides: z[0]=z0, z[n]=zm, "
+        "strict monotonicity, reaching the domain height, wind vector at zm, constant direction, Kz>0 and the similarity formula (independent phi_h), the MOSTM split, the "
+        "ustar->z0->ustar round trip; psi(0)=0, phi(0)=1; x psi'(x) = phi_m(x)-1 by running the real psi on dual numbers; agreement with the reference model's copies.",
+        ref="7/C09", note="Trusted: z3; exp/log/sqrt/pow/atan uninterpreted with instantiated laws (a proof holds for the true functions; sat answers are replayed); layer count 2 (3 thorough), "
+        "grids up to n+2 (n+3) nodes, longer ones cut and counted."),
+    "C17": dict(
+        technique="exact/UF symbolic execution of latlon_to_xy / xy_to_latlon / configuration building (z3 NRA) with a path explorer",
+        text="For all real coordinates (|ref_lat|<90) z3 decides both round-trip identities, origin -> (0,0), x east / y north monotone and separable, element-wise array behaviour, "
+        "and that building a configuration fills tower x, y with latlon_to_xy for every reference origin incl. 0. The 0.1 % / 0.1 degree great-circle clause is OUTSIDE the claim.",
+        ref="7/C17", note="Trusted: z3; cos(radians(ref_lat)) one uninterpreted positive value; exact rationals for literals (rounding of doubles outside)."),
+    "C18": dict(
+        technique="symbolic execution of io.save/load over an xarray contract stub with every stored number a z3 variable",
+        text="Per result-set shape (towers 1..3(4) x steps x 2-D/3-D x ustar/z0 forcing x string/int timestamps) z3 decides that every loaded entry is the variable stored for that "
+        "tower, step, level and cell, tower metadata belong to the tower of that name, met values to that step; labels, coordinates, float64 storage and the lossless-encoding "
+        "predicate are checked; the stub's contract is validated on every run against the real xarray/netCDF4 with extreme values.",
+        ref="7/C18", note="Trusted: z3; the xarray/netCDF4 contract (validated each run); HDF5+zlib themselves outside."),
 }
 
 PENDING = "check not built yet in this round (work in progress; see DESIGN.md section 7 for the plan)"
